@@ -123,3 +123,16 @@ package cachepolicy
 //@   requires c != nil
 //@   ensures [C11.build.config] result != nil && typeis(result, *cachePolicy) && fresh(asref(result, *cachePolicy)) && asref(result, *cachePolicy).config == c
 //@   modifies nothing
+
+// Builder: the given cache, no key, no conditions, no listeners; With is Builder(cache).Build()
+//@ func Builder
+//@   builder
+//@   let c := asref(result, *config)
+//@   ensures [C11.builder.defaults] typeis(result, *config) && fresh(c) && c.cache == cache && c.key == "" && len(c.cacheConditions) == 0 && c.onHit == nil && c.onMiss == nil && c.onCache == nil
+//@   modifies nothing
+//@ func With
+//@   builder
+//@   dyntype CachePolicyBuilder *config only
+//@   let p := asref(result, *cachePolicy)
+//@   ensures [C11.with] result != nil && typeis(result, *cachePolicy) && p.config != nil && p.config.cache == cache && p.config.key == "" && len(p.config.cacheConditions) == 0 && p.config.onHit == nil && p.config.onMiss == nil && p.config.onCache == nil
+//@   modifies nothing
